@@ -3718,6 +3718,24 @@ static Type check_statement_impl(TypeChecker *tc, ASTNode *stmt) {
             }
 
             for (int i = 0; i < stmt->as.match_expr.arm_count; i++) {
+                /* Each arm names an existing variant of the scrutinee's union, once */
+                if (union_base_name && env_get_union(tc->env, union_base_name)) {
+                    const char *vn = stmt->as.match_expr.pattern_variants[i];
+                    if (env_get_union_variant_index(tc->env, union_base_name, vn) < 0) {
+                        fprintf(stderr, "Error at line %d, column %d: Union '%s' has no variant '%s' (match arm %d)\n",
+                                stmt->line, stmt->column, union_base_name, vn, i + 1);
+                        tc->has_error = true;
+                    }
+                    for (int j = 0; j < i; j++) {
+                        if (strcmp(stmt->as.match_expr.pattern_variants[j], vn) == 0) {
+                            fprintf(stderr, "Error at line %d, column %d: Duplicate match arm for variant '%s'\n",
+                                    stmt->line, stmt->column, vn);
+                            tc->has_error = true;
+                            break;
+                        }
+                    }
+                }
+
                 Value binding_val = create_void();
                 env_define_var_with_type_info(tc->env,
                     stmt->as.match_expr.pattern_bindings[i],
